@@ -38,19 +38,35 @@ fn gen(which: &str, spec: &CmdSpec) -> String {
 }
 
 fn spec_with(slot: &str, text: &str) -> CmdSpec {
+    // `slot@N`: the same tree with every long name and the positional's name N characters long
+    // (generators pad descriptions to a column, so the layout depends on the name widths)
+    let (slot, width) = match slot.split_once('@') {
+        Some((s, n)) => (s, n.parse::<usize>().ok()),
+        None => (slot, None),
+    };
+    let name = |base: &str, lead: char| -> String {
+        match width {
+            Some(n) => std::iter::once(lead).chain(std::iter::repeat('n').take(n.saturating_sub(1))).collect(),
+            None => base.to_string(),
+        }
+    };
     let t = |s: &str| -> Option<String> { Some(if slot == s || slot == "all" { text.to_string() } else { "plain text".to_string() }) };
     let mut c = CmdSpec::new("prog");
     c.about = t("about");
-    let mut f = ArgSpec::flag("flag", Some('f'), Some("flag"));
+    let mut f = ArgSpec::flag("flag", Some('f'), Some(&name("flag", 'f')));
     f.help = t("flag_help");
-    let mut o = ArgSpec::opt("opt", Some('o'), Some("opt"));
+    f.visible_aliases.push(name("flagalias", 'g'));
+    let mut o = ArgSpec::opt("opt", Some('o'), Some(&name("opt", 'o')));
     o.help = t("opt_help");
+    o.visible_short_aliases.push('O');
     o.parser = Vp::Pv(vec![PvSpec { name: "one".into(), help: t("pv_help"), ..Default::default() }, PvSpec { name: "two".into(), help: Some("plain".into()), ..Default::default() }]);
-    let mut p = ArgSpec::pos("pos", 1);
+    let mut p = ArgSpec::pos(&name("pos", 'p'), 1);
     p.help = t("pos_help");
     let mut s = CmdSpec::new("sub");
     s.about = t("sub_about");
-    let mut sf = ArgSpec::flag("subflag", None, Some("subflag"));
+    // generators emit a separate entry per visible alias
+    s.visible_aliases.push("subalias".into());
+    let mut sf = ArgSpec::flag("subflag", None, Some(&name("subflag", 's')));
     sf.help = t("flag_help");
     s.args.push(sf);
     c.args = vec![f, o, p];
@@ -203,7 +219,10 @@ fn check(slot: &str, text: &str, base: &Baseline, tag: &str) -> Vec<(String, Str
                 continue;
             }
         };
-        let slot_name = |s: &str| if s == "all" { "some slot".to_string() } else { format!("slot `{}`", s) };
+        let slot_name = |s: &str| {
+            let s = s.split('@').next().unwrap_or(s);
+            if s == "all" { "some slot".to_string() } else { format!("slot `{}`", s) }
+        };
         match *g {
             "bash" => {
                 if script != base.scripts[gi] {
@@ -268,7 +287,7 @@ fn main() {
     let k = tier.pick(2usize, 3usize);
     let strs = strings(k);
     rep.rule("block = (slot, chunk of strings); case = one hostile string put into the slot (or into all slots at once), all 6 generators run and their output reduced to its token structure (bash: the bytes themselves + bash -n; nushell: parse errors and flattened shape kinds from the real nu-parser; zsh/fish/PowerShell/elvish: script with string-literal contents and comments removed under a lexical model of the shell's quoting rules) and compared with the structure for innocuous text. non-trivial = all cases (every one is a full comparison over 6 generators)");
-    rep.set("bounds", json!({"atoms": ATOMS, "max_atoms": k, "strings": strs.len(), "slots": SLOTS, "generators": GENS}));
+    rep.set("bounds", json!({"atoms": ATOMS, "max_atoms": k, "strings": strs.len(), "slots": SLOTS, "name_width_sweep": "all slots at once with long/positional names of every length 1..=40", "generators": GENS}));
     rep.assume("zsh, fish, PowerShell and elvish are judged by lexical models of their quoting rules only (single quotes, double quotes with their escape character and expansion characters, backslash/backtick escapes outside quotes, # comments; PowerShell: any of ' ‘ ’ ‚ ‛ delimits a single-quoted string); second-level mini-languages (zsh _arguments specs, fish -a re-evaluation) and runtime behaviour are not modelled");
     rep.assume("nushell is judged by nu-parser 0.88.1 with the nu-cmd-lang default context; bash by byte identity and bash -n");
 
@@ -290,7 +309,13 @@ fn main() {
 
     let chunk = 40usize;
     let mut blocks: Vec<(usize, usize)> = vec![];
-    for si in 0..SLOTS.len() {
+    // name-width sweep: all slots at once for every name length 1..=40
+    let mut slots: Vec<String> = SLOTS.iter().map(|s| s.to_string()).collect();
+    for n in 1..=40usize {
+        slots.push(format!("all@{}", n));
+    }
+    let slots: &Vec<String> = &slots;
+    for si in 0..slots.len() {
         let mut st = 0;
         while st < strs.len() {
             blocks.push((si, st));
@@ -299,7 +324,7 @@ fn main() {
     }
     par_blocks(blocks.len(), |bi, tid| {
         let (si, st) = blocks[bi];
-        let slot = SLOTS[si];
+        let slot = slots[si].as_str();
         let base = baseline(slot, false);
         let mut h = Hist::new();
         for (k, text) in strs[st..(st + chunk).min(strs.len())].iter().enumerate() {
@@ -326,7 +351,7 @@ fn main() {
         rep.merge(&h);
     });
     // empty text in every slot
-    for slot in SLOTS {
+    for slot in slots.iter().map(|s| s.as_str()) {
         let base = baseline(slot, true);
         for (c, w) in check(slot, "", &base, "empty") {
             rep.violation(Violation { cause: c.clone(), order: (0, 0), what: format!("slot {} empty text: {} ({})", slot, c, w), case: json!({"slot": slot, "text_hex": ""}) });
